@@ -41,7 +41,7 @@ ORCH = 'chainables.orchestrate'
 
 
 def run(ctx: Ctx):
-  for r in (r1, r2, r3, r4, r5, r6):
+  for r in (r1, r2, r3, r4, r5, r6, r7):
     ctx.guard(r)
 
 
@@ -424,9 +424,14 @@ def r5(ctx: Ctx):
   rels = [n for n in g.nodes if any(
       isinstance(x, ast.Call) and isinstance(x.func, ast.Attribute)
       and x.func.attr == 'release' for x in cfgm.node_exprs(n))]
-  avail = lambda c: c.kind == 'cond' and 'is_available(self)' in unparse(c.ast)
-  reach = g.reachable([g.entry], edge_ok=lambda p, q, lab: lab not in ('exc', 'close')
-                      and not (avail(p) and lab == 'true'))
+  def _recv(n):
+    for x in cfgm.node_exprs(n):
+      for c in ast.walk(x):
+        if isinstance(c, ast.Call) and isinstance(c.func, ast.Attribute) and c.func.attr == 'release' and (
+            isinstance(c.func.value, ast.Name)):
+          return c.func.value.id
+    return None
+  reach = {n for n in rels if _recv(n) is None or not _owned_at(g, _recv(n), n)}
   if rels and all(n not in reach for n in rels):
     ctx.ok(rule, ra, 'release_all guarded by is_available(self)', ra.node)
   else:
@@ -647,12 +652,195 @@ def _container_discipline(g, fi) -> bool:
   return True
 
 
+_OWN_TESTS = ('acquire_by', 'is_available', 'is_locked')
+
+
+def _own_polarity(t: ast.AST, var: str) -> bool | None:
+  """True/False: the edge label on which `var` is known to be owned/free."""
+  neg = False
+  while isinstance(t, ast.UnaryOp) and isinstance(t.op, ast.Not):
+    neg = not neg
+    t = t.operand
+  cs = [t]
+  if isinstance(t, ast.BoolOp) and isinstance(t.op, ast.And) and not neg:
+    cs = t.values
+  elif isinstance(t, ast.BoolOp) and isinstance(t.op, ast.Or) and neg:
+    # not (a or b) == not a and not b: no positive ownership fact
+    return None
+  for c in cs:
+    if isinstance(c, ast.NamedExpr):
+      c = c.value
+    if isinstance(c, ast.Call) and isinstance(c.func, ast.Attribute) and c.func.attr in _OWN_TESTS and (
+        isinstance(c.func.value, ast.Name) and c.func.value.id == var and c.args):
+      return not neg
+  return None
+
+
+def _container_of(it: ast.AST) -> str | None:
+  if isinstance(it, ast.Name):
+    return it.id
+  if isinstance(it, ast.Call):
+    if isinstance(it.func, ast.Attribute) and it.func.attr in ('items', 'keys', 'copy') and not it.args:
+      return _container_of(it.func.value)
+    if unparse(it.func) in ('copy.copy', 'list', 'tuple', 'set', 'sorted', 'reversed') and len(it.args) == 1:
+      return _container_of(it.args[0])
+  return None
+
+
+def _owned_at(g, var: str, node, depth: int = 0) -> bool:
+  """Is `var` proven to be owned by (or free for) this pool whenever `node` runs?"""
+  if depth > 3:
+    return False
+  proven_loops = set()
+  for n in g.nodes:
+    if n.kind == 'for_iter':
+      tv = n.ast.target.elts[0] if isinstance(n.ast.target, ast.Tuple) and n.ast.target.elts else n.ast.target
+      if isinstance(tv, ast.Name) and tv.id == var:
+        c = _container_of(n.ast.iter)
+        if c is not None and _container_owned(g, c, depth + 1):
+          proven_loops.add(n)
+
+  def acquired_assign(n):
+    if n.kind != 'stmt' or not isinstance(n.ast, ast.Assign):
+      return False
+    if not any(isinstance(t, ast.Name) and t.id == var for t in n.ast.targets):
+      return False
+    v = n.ast.value
+    return isinstance(v, ast.Call) and isinstance(v.func, ast.Attribute) and (
+        v.func.attr == 'next_idle_worker' and unparse(kwarg(v, 'maybe_acquire')) == 'True')
+
+  # if every binding of var is None or an acquiring call, `var is not None`
+  # is an ownership fact
+  binds = [n for n in g.nodes if n.kind == 'stmt' and isinstance(n.ast, ast.Assign) and any(
+      isinstance(t, ast.Name) and t.id == var for t in n.ast.targets)]
+  none_or_acq = bool(binds) and all(
+      acquired_assign(b) or (isinstance(b.ast.value, ast.Constant) and b.ast.value.value is None)
+      for b in binds) and not any(
+          n.kind == 'for_iter' and any(isinstance(y, ast.Name) and y.id == var for y in ast.walk(n.ast.target))
+          for n in g.nodes)
+
+  def not_none_edge(t, lab):
+    if isinstance(t, ast.Compare) and len(t.ops) == 1 and isinstance(t.left, ast.Name) and (
+        t.left.id == var) and isinstance(t.comparators[0], ast.Constant) and t.comparators[0].value is None:
+      return (isinstance(t.ops[0], ast.Is) and lab == 'false') or (
+          isinstance(t.ops[0], ast.IsNot) and lab == 'true')
+    return False
+
+  def edge_ok(p, q, lab):
+    if lab in ('exc', 'close'):
+      return True
+    if p.kind == 'cond' and none_or_acq and not_none_edge(p.ast, lab):
+      return False
+    if p.kind == 'cond':
+      pol = _own_polarity(p.ast, var)
+      if pol is not None and lab == ('true' if pol else 'false'):
+        return False
+    if p in proven_loops and lab == 'true':
+      return False
+    if acquired_assign(p) and lab == 'next':
+      return False
+    return True
+
+  reach = g.reachable([g.entry], edge_ok=edge_ok, include_src=True)
+  return node not in reach
+
+
+def _container_owned(g, cname: str, depth: int) -> bool:
+  sites = []
+  for n in g.nodes:
+    if n.kind != 'stmt':
+      continue
+    a = n.ast
+    if isinstance(a, ast.Assign):
+      for t in a.targets:
+        if isinstance(t, ast.Subscript) and isinstance(t.value, ast.Name) and t.value.id == cname:
+          sites.append((n, t.slice))
+        if isinstance(t, ast.Name) and t.id == cname:
+          v = a.value
+          if isinstance(v, (ast.Dict, ast.List, ast.Set)) and not (
+              getattr(v, 'keys', None) or getattr(v, 'elts', None)):
+            continue
+          if isinstance(v, ast.Call) and unparse(v.func) in ('dict', 'list', 'set') and not v.args:
+            continue
+          if isinstance(v, ast.Call) and isinstance(v.func, ast.Attribute) and v.func.attr in (
+              '_acquire_all', 'acquire_all'):
+            continue
+          return False
+    if isinstance(a, ast.Expr) and isinstance(a.value, ast.Call) and isinstance(
+        a.value.func, ast.Attribute) and isinstance(a.value.func.value, ast.Name) and (
+            a.value.func.value.id == cname) and a.value.func.attr in ('append', 'add') and a.value.args:
+      sites.append((n, a.value.args[0]))
+    if isinstance(a, ast.Expr) and isinstance(a.value, ast.Call) and isinstance(
+        a.value.func, ast.Attribute) and isinstance(a.value.func.value, ast.Name) and (
+            a.value.func.value.id == cname) and a.value.func.attr in ('extend', 'update', 'insert'):
+      return False
+  for n, key in sites:
+    if not isinstance(key, ast.Name) or not _owned_at(g, key.id, n, depth):
+      return False
+  return True
+
+
+def r7(ctx: Ctx):
+  rule = 'R-C20-7'
+  ctx.rule(rule, '"a pool can only release workers it owns or that are free":'
+           ' Worker.release() is unconditional, so every `w.release()` in the'
+           ' pool / orchestration code is dominated by an ownership fact for'
+           ' that w — the true edge of w.acquire_by(pool) / w.is_available(pool)'
+           ' / w.is_locked(pool), w returned by next_idle_worker(maybe_acquire='
+           'True), or w drawn from a container that only ever receives such'
+           ' workers')
+  repo = ctx.repo
+  targets = []
+  for fi in repo.all_functions():
+    if fi.module.name.endswith(('courier_worker', 'orchestrate')):
+      targets.append(fi)
+      for name, nd in _nested(fi.node).items():
+        targets.append(FuncInfo(fi.module, f'{fi.qualname}.{name}', nd, fi.cls))
+  n = 0
+  for fi in targets:
+    if fi.cls is not None and fi.cls.name == 'Worker':
+      continue
+    g = cfgm.cfg_of(fi.node)
+    seen_calls = set()
+    for nd in g.nodes:
+      for x in cfgm.node_exprs(nd):
+        for c in ast.walk(x):
+          if isinstance(c, ast.Call) and isinstance(c.func, ast.Attribute) and c.func.attr == 'release' and (
+              not c.args) and isinstance(c.func.value, ast.Name) and 'lock' not in c.func.value.id.lower():
+            var = c.func.value.id
+            if (id(c), 0) in seen_calls:
+              continue
+            n += 1
+            if all(_owned_at(g, var, nd2) for nd2 in g.nodes
+                   if any(c is c2 for x2 in cfgm.node_exprs(nd2) for c2 in ast.walk(x2))):
+              seen_calls.add((id(c), 0))
+              ctx.ok(rule, fi, f'{fi.qualname}: {var}.release() under an ownership fact', c)
+            else:
+              seen_calls.add((id(c), 0))
+              ctx.fail(rule, fi, f'{fi.qualname}: {var}.release() only for a worker this pool owns',
+                       f'{fi.qualname} releases `{var}` on a path where nothing'
+                       ' shows that this pool owns it (or that it is free):'
+                       ' Worker.release() is unconditional, so a worker held by'
+                       ' ANOTHER pool is released under its feet and two pools'
+                       ' then use the same worker', node=c)
+  ctx.floor(rule, 3, n)
+
+
 from mlmverif.selfcheck import B, OK  # noqa: E402
 
 _U = 'utils/courier_utils.py'
 _W = 'chainables/courier_worker.py'
 _O = 'chainables/orchestrate.py'
 VARIANTS = [
+    B('release-before-acquire-in-next-idle-worker', _W,
+      '      if worker.acquire_by(self):\n        if worker.has_capacity and worker.is_alive:\n          return worker\n        # Do not keep a worker that was acquired but cannot be used.\n        worker.release()',
+      '      if not (worker.has_capacity and worker.is_alive):\n        worker.release()\n        continue\n      if worker.acquire_by(self):\n        return worker',
+      'R-C20-7'),
+    B('release-all-unconditional', _W,
+      '      if worker.is_available(self):\n        worker.release()', '      worker.release()', 'R-C20-7'),
+    OK('release-all-guard-inverted', _W,
+       '      if worker.is_available(self):\n        worker.release()',
+       '      if not worker.is_available(self):\n        continue\n      worker.release()'),
     B('get-without-lock', _U,
       '    with self._lock:\n      if (result := self.data.get(key, default)) is None:\n        # None means the client has pronounced dead.\n        return 0\n\n      return result',
       '    if (result := self.data.get(key, default)) is None:\n      return 0\n    return result',
